@@ -53,10 +53,16 @@ Ids(ms) == [i \in DOMAIN ms |-> ms[i].m]
 SameBagS(s, t) == Len(s) = Len(t) /\ \A i \in DOMAIN s : Cardinality({j \in DOMAIN s : s[j] = s[i]}) = Cardinality({j \in DOMAIN t : t[j] = s[i]})
 ExpectedLog(c, k) == SelectSeq(AllProcessed(c), LAMBDA m : k \in AddressedH(Host(c), m, DOMAIN c.machines))
 
+\* deliveries to the timers service: once per message that names it (as a string or anywhere in a list), however often
+ToTimers(msg) == msg.tok[1] \in {"str", "list"} /\ "timers" \in {msg.tok[i] : i \in 2..Len(msg.tok)}
+ExpectedTimerErrors(c) ==
+  Cardinality({i \in DOMAIN AllProcessed(c) : "del" \in DOMAIN AllProcessed(c)[i] /\ AllProcessed(c)[i].del /\ ToTimers(AllProcessed(c)[i])})
+
 Labels(c) ==
   (IF ~SameBagS(c.processed, Ids(AllProcessed(c))) THEN {"message-not-processed-exactly-once"} ELSE {})
   \cup (IF \E k \in DOMAIN c.machines : k \notin DOMAIN c.logs \/ ~SameBagS(c.logs[k], Ids(ExpectedLog(c, k))) THEN {"machine-not-presented-exactly-once"} ELSE {})
   \cup (IF ~SameBagS(c.reported, Ids(Emitted(c))) THEN {"emission-not-reported-exactly-once"} ELSE {})
+  \cup (IF Host(c) = "mcrew" /\ "timerErrors" \in DOMAIN c /\ c.timerErrors # ExpectedTimerErrors(c) THEN {"service-not-addressed-exactly-once"} ELSE {})
 
 \* Signature of the known finding F-C14-mcrew-emitted-dropped: in the burst scenario (a host whose Emitted channel is smaller
 \* than what one step emits) the only thing wrong is that exactly as many emissions were reported as the channel holds,
